@@ -450,6 +450,155 @@ def decode_case(case):
     return dict(names=[bytes.fromhex(n) for n in case['names']], ops=ops)
 
 
+# ---------------------------------------------------------------------------------------------- real binary: who is still alive
+def parse_log_file(path):
+    recs = {}
+    try:
+        raw = open(path, "rb").read()
+    except FileNotFoundError:
+        return None, 0
+    lines = raw.split(b"\n")
+    n = 0
+    for l in lines[1:]:
+        f = l.split(b"\t")
+        if len(f) == 5:
+            n += 1
+            recs[f[3]] = (f[2], f[4])        # last record wins
+    return recs, n
+
+
+def real_recompact_case(root, n, removed, deleted, prep, depsmode, renamed):
+    """The liveness test used by the real binary's recompaction (ninja.cc, reached by no in-process part): n statements are
+    built, some are then removed from the manifest (their outputs stay on disk unless also deleted), one may be renamed;
+    the log is recompacted by `-t recompact`, or padded to the threshold so that the next ordinary invocation recompacts
+    it. Afterwards the log must still hold, unchanged, the latest record of every output that is in the manifest or on disk."""
+    import subprocess, shutil as _sh
+    from .. import build
+    ninja = build.ninja_binary("rel")
+    d = os.path.join(root, "rr%d" % os.getpid())
+    _sh.rmtree(d, ignore_errors=True)
+    os.makedirs(os.path.join(d, "sub"))
+    env = dict(os.environ, TERM="dumb")
+    env.pop("MAKEFLAGS", None)
+    env.pop("NINJA_STATUS", None)
+
+    def manifest(keep, names):
+        L = ["rule cp\n  command = cp $in $out\n"]
+        if depsmode:
+            L.append("rule cpd\n  command = cp $in $out && printf '%s: %s\\n' $out hdr > $out.d\n  depfile = $out.d\n  deps = gcc\n")
+        for i in keep:
+            L.append("build %s: %s src\n" % (names[i], "cpd" if (depsmode and i % 2 == 0) else "cp"))
+        return "".join(L)
+
+    names = [("sub/o%d" % i) if i % 3 == 2 else ("o%d" % i) for i in range(n)]
+    open(os.path.join(d, "src"), "w").write("x")
+    open(os.path.join(d, "hdr"), "w").write("h")
+    open(os.path.join(d, "build.ninja"), "w").write(manifest(range(n), names))
+    p0 = subprocess.run([ninja], cwd=d, env=env, capture_output=True, timeout=60)
+    if p0.returncode != 0:
+        return dict(kind="setup build failed", detail=dict(out=(p0.stdout + p0.stderr).decode('utf-8', 'replace')[-300:])), set()
+    lp = os.path.join(d, ".ninja_log")
+    before, _ = parse_log_file(lp)
+    labels = set()
+    keep = [i for i in range(n) if i not in removed]
+    names2 = list(names)
+    if renamed is not None and renamed % n in keep:
+        names2[renamed % n] = "renamed_" + names[renamed % n].replace("/", "_")     # the old output stays on disk, unknown to the graph
+        labels.add('statement_renamed')
+    open(os.path.join(d, "build.ninja"), "w").write(manifest(keep, names2))
+    for i in deleted:
+        if i < n:
+            try:
+                os.unlink(os.path.join(d, names[i]))
+            except FileNotFoundError:
+                pass
+    # (the invocation that recompacts must have nothing to build: a target that is unchanged and still there)
+    quiet = [i for i in keep if names2[i] == names[i] and i not in deleted]
+    if prep == 'bloat' and not quiet:
+        prep = 'recompact'
+    if prep == 'bloat':
+        raw = open(lp, "rb").read()
+        lines = [l for l in raw.split(b"\n")[1:] if l.count(b"\t") == 4]
+        target = max(100, 3 * len(set(l.split(b"\t")[3] for l in lines))) + 5
+        add = []
+        while len(lines) + len(add) < target:
+            add += lines
+        add = add[:target - len(lines)]
+        with open(lp, "wb") as f:
+            f.write(raw.split(b"\n")[0] + b"\n" + b"\n".join(add + lines) + b"\n")
+        # any invocation that opens the log for writing recompacts it now; a no-op build of what is left does
+        p1 = subprocess.run([ninja, names[quiet[0]]], cwd=d, env=env, capture_output=True, timeout=60)
+        labels.add('automatic_recompaction')
+    else:
+        p1 = subprocess.run([ninja, "-t", "recompact"], cwd=d, env=env, capture_output=True, timeout=60)
+        labels.add('explicit_recompaction')
+    detail = dict(n=n, removed=sorted(removed), deleted=sorted(deleted), prep=prep, depsmode=depsmode, renamed=renamed, output=(p1.stdout + p1.stderr).decode('utf-8', 'replace')[-300:])
+    after, nlines = parse_log_file(lp)
+    if after is None:
+        return dict(kind="[real binary] the log is gone after recompaction", detail=detail), labels
+    if prep == 'bloat' and nlines >= 100:
+        return dict(kind="[real binary] log past the threshold was not recompacted (%d lines)" % nlines, detail=detail), labels
+    for i in range(n):
+        nm = names[i].encode()
+        in_manifest = i in keep and names2[i] == names[i]
+        on_disk = os.path.exists(os.path.join(d, names[i]))
+        if nm not in before:
+            continue
+        if in_manifest or on_disk:
+            if nm not in after:
+                return dict(kind="[real binary] recompaction dropped the record of %s (in the manifest: %s, on disk: %s)" % (names[i], in_manifest, on_disk), detail=detail), labels
+            if after[nm] != before[nm]:
+                return dict(kind="[real binary] recompaction changed the record of %s: %r -> %r" % (names[i], before[nm], after[nm]), detail=detail), labels
+            if not in_manifest:
+                labels.add('kept_record_of_file_outside_the_manifest')
+        elif nm not in after:
+            labels.add('dropped_dead_record')
+    _sh.rmtree(d, ignore_errors=True)
+    return None, labels
+
+
+def real_worker(widx, n_examples):
+    from hypothesis import given, settings, seed as hseed, HealthCheck, Phase, Verbosity, strategies as st
+    res = common.Result()
+    state = {}
+    budget = common.ShrinkBudget()
+    root = common.scratch_root()
+    try:
+        @hseed(common.sub_seed(PROP, 'real', widx))
+        @settings(max_examples=n_examples, deadline=None, database=None, suppress_health_check=list(HealthCheck),
+                  phases=[Phase.generate, Phase.shrink], verbosity=Verbosity.quiet, report_multiple_bugs=False)
+        @given(st.integers(2, 7), st.lists(st.integers(0, 6), max_size=3, unique=True), st.lists(st.integers(0, 6), max_size=3, unique=True),
+               st.sampled_from(['bloat', 'recompact']), st.booleans(), st.one_of(st.none(), st.integers(0, 6)))
+        def test(n, removed, deleted, prep, depsmode, renamed):
+            removed = [i for i in removed if i < n][:n - 1]
+            case = dict(kind='real_recompact', n=n, removed=removed, deleted=deleted, prep=prep, depsmode=depsmode, renamed=renamed)
+            dg = common.digest(case)
+            if budget.skip(dg):
+                return
+            f, labels = real_recompact_case(root, n, removed, deleted, prep, depsmode, renamed)
+            res.case(case, 'kept_record_of_file_outside_the_manifest' in labels or 'dropped_dead_record' in labels, ['real:' + l for l in labels],
+                     sample=case if 'kept_record_of_file_outside_the_manifest' in labels else None)
+            if f:
+                state['fail'] = (case, "%s %s" % (f['kind'], json.dumps(f['detail'], default=repr)[:1000]))
+                budget.failed(dg)
+                raise AssertionError()
+        common.run_hypothesis(test, state, res)
+    finally:
+        import shutil as _sh
+        _sh.rmtree(root, ignore_errors=True)
+    return res
+
+
+def replay_real(case):
+    import shutil as _sh
+    root = common.scratch_root()
+    try:
+        f, _ = real_recompact_case(root, case['n'], case['removed'], case['deleted'], case['prep'], case['depsmode'], case['renamed'])
+    finally:
+        _sh.rmtree(root, ignore_errors=True)
+    return f['kind'] if f else None
+
+
 def run(tier):
     big = tier == 'thorough'
     ck = common.Check(PROP, tier, "fault_enumeration",
@@ -477,12 +626,33 @@ def run(tier):
             ck.violation(f['case'], f['why'])
         else:
             ck.res.notes.append("FLAKY %d/3: %s" % (fails, f['why'][:200]))
+    rr = common.run_workers(real_worker, [(w, 60 if big else 5) for w in range(common.NCPU)])
+    ck.merge(rr)
+    for f in rr.failures:
+        if f.get('harness_error'):
+            continue
+        fails = sum(1 for _ in range(3) if replay_real(f['case']))
+        if fails == 3:
+            ck.violation(f['case'], f['why'])
+        else:
+            ck.res.notes.append("FLAKY %d/3: %s" % (fails, f['why'][:200]))
+    ck.rule += (" Real-binary part: 2-7 statements built by the real binary, some removed from the manifest or renamed, some outputs deleted, then "
+                "`-t recompact` or an automatic recompaction (log padded to the threshold): the log must keep, unchanged, the latest record of every "
+                "output that is still in the manifest or on disk (the liveness test lives in ninja.cc).")
     return ck.finish()
 
 
 def replay(path):
     j = json.load(open(path))
     case = j.get('case', j)
+    if case.get('kind') == 'real_recompact':
+        why = replay_real(case)
+        if why:
+            print("finding:", why)
+            print("VIOLATION property=%s replay=%s" % (PROP, path))
+            return 1
+        print("replay: no violation")
+        return 0
     with Probe("san") as p:
         try:
             run_history(p, decode_case(case))
